@@ -4,6 +4,7 @@ package c19
 import (
 	"bytes"
 	"fmt"
+	"github.com/dave/jennifer/jen"
 	"go/ast"
 	"go/scanner"
 	"go/token"
@@ -30,6 +31,9 @@ type Case struct {
 	Late bool `json:"late,omitempty"`
 	// NoFormat: the structure is checked on the unformatted output itself.
 	NoFormat bool `json:"noformat,omitempty"`
+	// Preview: before the File is rendered, a detached snippet that calls into C is rendered as a
+	// fragment with RenderWithFile(w, file), and the File is rendered twice.
+	Preview bool `json:"preview,omitempty"`
 }
 
 func (c Case) scenario(noFormat bool) imps.Scenario {
@@ -176,7 +180,7 @@ func renderLate(c Case, noFormat bool) ([]byte, error) {
 	sc := c.scenario(noFormat)
 	var early, late []recipe.FileOp
 	for _, op := range sc.File.Ops {
-		if op.Op == "CgoPreamble" {
+		if op.Op == "CgoPreamble" && c.Late {
 			late = append(late, op)
 		} else {
 			early = append(early, op)
@@ -184,6 +188,12 @@ func renderLate(c Case, noFormat bool) ([]byte, error) {
 	}
 	sc.File.Ops = early
 	f := recipe.BuildFile(&sc.File)
+	if c.Preview {
+		func() {
+			defer func() { _ = recover() }()
+			_ = jen.Qual("C", "zzpreview").Call(jen.Lit(1)).RenderWithFile(&bytes.Buffer{}, f)
+		}()
+	}
 	_ = f.Render(&bytes.Buffer{})
 	for i := range late {
 		recipe.ApplyFileOp(f, &late[i])
@@ -199,7 +209,7 @@ func check(c Case) error {
 	sc := c.scenario(c.NoFormat)
 	var o *imps.Outcome
 	var err error
-	if c.Late {
+	if c.Late || c.Preview {
 		o = &imps.Outcome{Model: imps.ModelOf(&sc.File), Markers: sc.Markers()}
 		src, rerr := renderLate(c, c.NoFormat)
 		if rerr != nil {
@@ -315,7 +325,7 @@ var preambles = [][]string{
 func TestC19(t *testing.T) {
 	r := hx.Start(t, "C19")
 	defer r.Finish(t)
-	r.Rule("enumerated cross product {C introduced by Qual, Anon, both, preamble only} x 14 preamble lists (one-line, multi-line with/without trailing newline, raw // lines, raw /* */, mixtures, repeated blocks; one case in three also with the preamble supplied after a first render) x other imports {none, one, many, aliased, anonymous, dot, a path whose guess is c} x PackagePrefix on/off x hints {none, ImportName(C), ImportAlias(C), ImportAlias(C, .), ImportAlias(C, _), another path named C} x C referenced first/last; thorough adds rapid-generated preamble texts; non-trivial = a preamble together with >= 1 other import, or a prefix or a hint naming C; distinct by the case")
+	r.Rule("enumerated cross product {C introduced by Qual, Anon, both, preamble only} x 14 preamble lists (one-line, multi-line with/without trailing newline, raw // lines, raw /* */, mixtures, repeated blocks; one case in three also with the preamble supplied after a first render, one in four with a detached C snippet rendered as a fragment against the File first) x other imports {none, one, many, aliased, anonymous, dot, a path whose guess is c} x PackagePrefix on/off x hints {none, ImportName(C), ImportAlias(C), ImportAlias(C, .), ImportAlias(C, _), another path named C} x C referenced first/last; thorough adds rapid-generated preamble texts; non-trivial = a preamble together with >= 1 other import, or a prefix or a hint naming C; distinct by the case")
 	r.Assume("raw-form preamble texts are well-formed comments (one /*...*/, or // lines joined by single newlines, no trailing newline); preamble text is compared on the NoFormat twin, structure on the formatted output")
 	ck := hx.Check[Case]{Name: "cgo", Fn: check}
 	if !hx.Replay(r, ck) {
@@ -343,6 +353,12 @@ func TestC19(t *testing.T) {
 									late.Late = true
 									hx.One(r, ck, late)
 									r.Class("preamble_after_first_render")
+								}
+								if n%4 == 1 {
+									pv := c
+									pv.Preview = true
+									hx.One(r, ck, pv)
+									r.Class("fragment_preview_before_render")
 								}
 								r.Class("intro_" + intro)
 								if len(pre) > 0 && others != "none" || prefix != "" || hint != "none" {
@@ -374,6 +390,7 @@ func TestC19(t *testing.T) {
 			c.Preamble = append(c.Preamble, genBlock(rt))
 		}
 		c.Late = rapid.IntRange(0, 3).Draw(rt, "late") == 0
+		c.Preview = rapid.IntRange(0, 3).Draw(rt, "preview") == 0
 		c.NoFormat = rapid.IntRange(0, 3).Draw(rt, "noformat") == 0
 		r.Class("random_text")
 		r.NonTrivial(fmt.Sprintf("%+v", c))
